@@ -108,9 +108,11 @@ func (d *day) CalcTimeWindows(start, end int64) int {
 // month implements Calculator interface for month interval type
 type month struct{}
 
-// CalcSlot calculates field store slot index based on given timestamp and base time for month interval type
+// CalcSlot calculates field store slot index based on given timestamp and base time for month interval type.
+// The base time is the start of the timestamp's family (a local day), so the offset is already below the
+// family's length; it must not be taken modulo 24 hours: a local day has 25 hours when clocks go back.
 func (m *month) CalcSlot(timestamp, baseTime, interval int64) int {
-	return int(((timestamp - baseTime) % timeutil.OneDay) / interval)
+	return int((timestamp - baseTime) / interval)
 }
 
 // GetSegment returns segment name by given timestamp for month interval type
